@@ -108,7 +108,7 @@ impl Drop for TokH {
                 die: false,
             };
             let clo = make_clo(c, &mut nofr);
-            ev(format!("sub m {}", clo.guard.uid));
+            sub(&clo, 'm');
             match deferrer() {
                 Some(d) => d.defer(move |s| run_plain(s, clo)),
                 None => {
@@ -157,6 +157,8 @@ pub struct Msg {
 struct Guard {
     uid: u32,
     ran: Cell<bool>,
+    q: Rc<Cell<char>>, // queue the closure was handed to ('-' none)
+    call: bool,        // an actor call (not a plain closure)
 }
 impl Guard {
     fn start(&self) {
@@ -167,7 +169,7 @@ impl Guard {
 impl Drop for Guard {
     fn drop(&mut self) {
         if !self.ran.get() {
-            ev(format!("drop {}", self.uid));
+            ev(format!("drop {} {} {}", self.uid, self.q.get(), self.call as u8));
             consumed(LK_CLO, self.uid);
         }
     }
@@ -195,7 +197,23 @@ fn new_uid(cid: u32) -> u32 {
     uid
 }
 
+// echo of a submission: remember the queue in the instance and log it
+fn sub(clo: &Clo, q: char) {
+    clo.guard.q.set(q);
+    ev(format!("sub {} {} {}", q, clo.guard.uid, clo.guard.call as u8));
+}
+fn sub_later(q: &Rc<Cell<char>>, uid: u32) {
+    q.set('m');
+    ev(format!("sub m {} 1", uid));
+}
+
 fn make_clo(ci: usize, fr: &mut Frame) -> Clo {
+    make_clo2(ci, fr, false)
+}
+fn make_call(ci: usize, fr: &mut Frame) -> Clo {
+    make_clo2(ci, fr, true)
+}
+fn make_clo2(ci: usize, fr: &mut Frame, call: bool) -> Clo {
     let sp = spec(ci);
     let uid_cid = sp.id;
     let mut caps = Vec::new();
@@ -209,19 +227,23 @@ fn make_clo(ci: usize, fr: &mut Frame) -> Clo {
         guard: Guard {
             uid,
             ran: Cell::new(false),
+            q: Rc::new(Cell::new('-')),
+            call,
         },
         caps,
         spec: ci,
     }
 }
 
-fn make_clo_nocaps(ci: usize) -> Clo {
+fn make_call_nocaps(ci: usize) -> Clo {
     let sp = spec(ci);
     let uid = new_uid(sp.id);
     Clo {
         guard: Guard {
             uid,
             ran: Cell::new(false),
+            q: Rc::new(Cell::new('-')),
+            call: true,
         },
         caps: Vec::new(),
         spec: ci,
@@ -381,7 +403,7 @@ impl<'a, 'b> Ctx<'a, 'b> {
 fn run_plain(s: &mut Stakker, clo: Clo) {
     let Clo { guard, caps, spec: sp } = clo;
     guard.start();
-    ev(format!("run {} {}", guard.uid, ms_of(s.now())));
+    ev(format!("run {} {} {}", guard.uid, ms_of(s.now()), guard.q.get()));
     let mut fr = Frame {
         loc: caps,
         die: false,
@@ -526,13 +548,14 @@ fn make_notifier(a: u32, n: &Notif, fr: &mut Frame) -> Ret<StopCause> {
         Notif::Log => ret_do!(move |m: Option<StopCause>| log_notify(a, &m)),
         Notif::To(hp, c) => match handle_actor2(fr, *hp) {
             Some((parent, pid)) => {
-                let clo = make_clo(*c, fr);
+                let clo = make_call(*c, fr);
                 let uid = clo.guard.uid;
+                let q = clo.guard.q.clone();
                 ev(format!("target {} {} 0", uid, pid));
                 let inner: Ret<StopCause> = ret_to!([parent], meth_cause(clo) as (StopCause));
                 Ret::new(move |m: Option<StopCause>| {
                     log_notify(a, &m);
-                    ev(format!("sub m {}", uid));
+                    sub_later(&q, uid);
                     match m {
                         Some(c) => inner.ret(c),
                         None => drop(inner),
@@ -581,14 +604,14 @@ fn do_act(act: &Act_, ctx: &mut Ctx<'_, '_>, fr: &mut Frame) {
                 return bad(1);
             }
             let clo = make_clo(*c, fr);
-            ev(format!("sub m {}", clo.guard.uid));
+            sub(&clo, 'm');
             let sp = spec(*c);
             let core = ctx.core().unwrap();
             pads::dispatch(sp.size, sp.align, SiteDefer { core, clo });
         }
         Act_::DeferD(c) => {
             let clo = make_clo(*c, fr);
-            ev(format!("sub m {}", clo.guard.uid));
+            sub(&clo, 'm');
             let sp = spec(*c);
             match deferrer() {
                 Some(d) => pads::dispatch(sp.size, sp.align, SiteDeferD { d, clo }),
@@ -603,7 +626,7 @@ fn do_act(act: &Act_, ctx: &mut Ctx<'_, '_>, fr: &mut Frame) {
                 return bad(2);
             }
             let clo = make_clo(*c, fr);
-            ev(format!("sub l {}", clo.guard.uid));
+            sub(&clo, 'l');
             let sp = spec(*c);
             let core = ctx.core().unwrap();
             if default_pad(&sp) {
@@ -617,7 +640,7 @@ fn do_act(act: &Act_, ctx: &mut Ctx<'_, '_>, fr: &mut Frame) {
                 return bad(3);
             }
             let clo = make_clo(*c, fr);
-            ev(format!("sub i {}", clo.guard.uid));
+            sub(&clo, 'i');
             let core = ctx.core().unwrap();
             idle!([core], |s| run_plain(s, clo));
         }
@@ -626,7 +649,7 @@ fn do_act(act: &Act_, ctx: &mut Ctx<'_, '_>, fr: &mut Frame) {
                 return bad(4);
             }
             let clo = make_clo(*c, fr);
-            ev(format!("sub t {}", clo.guard.uid));
+            sub(&clo, 't');
             let core = ctx.core().unwrap();
             let key = match k {
                 Tk::F => TKey::F(at!(at(*t), [core], |s| run_plain(s, clo))),
@@ -640,7 +663,7 @@ fn do_act(act: &Act_, ctx: &mut Ctx<'_, '_>, fr: &mut Frame) {
                 return bad(5);
             }
             let clo = make_clo(*c, fr);
-            ev(format!("sub t {}", clo.guard.uid));
+            sub(&clo, 't');
             let core = ctx.core().unwrap();
             let key = after!(Duration::from_millis((*d).max(0) as u64), [core], |s| run_plain(
                 s, clo
@@ -652,7 +675,6 @@ fn do_act(act: &Act_, ctx: &mut Ctx<'_, '_>, fr: &mut Frame) {
                 return bad(6);
             }
             let clo = make_clo(*c, fr);
-            let uid = clo.guard.uid;
             let core = ctx.core().unwrap();
             let old = TVARS.with(|tv| tv.borrow().get(&(tk_code(*k), *v)).copied());
             match k {
@@ -663,7 +685,7 @@ fn do_act(act: &Act_, ctx: &mut Ctx<'_, '_>, fr: &mut Frame) {
                     };
                     let before = core.timer_max_active(key);
                     if !before {
-                        ev(format!("sub t {}", uid));
+                        sub(&clo, 't');
                     }
                     timer_max!(&mut key, at(*t), [core], |s| run_plain(s, clo));
                     TVARS.with(|tv| tv.borrow_mut().insert((1, *v), TKey::X(key)));
@@ -675,7 +697,7 @@ fn do_act(act: &Act_, ctx: &mut Ctx<'_, '_>, fr: &mut Frame) {
                     };
                     let before = core.timer_min_active(key);
                     if !before {
-                        ev(format!("sub t {}", uid));
+                        sub(&clo, 't');
                     }
                     timer_min!(&mut key, at(*t), [core], |s| run_plain(s, clo));
                     TVARS.with(|tv| tv.borrow_mut().insert((2, *v), TKey::N(key)));
@@ -754,9 +776,9 @@ fn do_act(act: &Act_, ctx: &mut Ctx<'_, '_>, fr: &mut Frame) {
                 Some(a) => a,
                 None => return bad(11),
             };
-            let clo = make_clo(*c, fr);
+            let clo = make_call(*c, fr);
             ev(format!("target {} {} 0", clo.guard.uid, aid));
-            ev(format!("sub m {}", clo.guard.uid));
+            sub(&clo, 'm');
             let sp = spec(*c);
             if default_pad(&sp) {
                 call!([actor], meth(clo));
@@ -769,9 +791,9 @@ fn do_act(act: &Act_, ctx: &mut Ctx<'_, '_>, fr: &mut Frame) {
                 Some(x) => x,
                 None => return bad(12),
             };
-            let clo = make_clo(*c, fr);
+            let clo = make_call(*c, fr);
             ev(format!("target {} {} 1", clo.guard.uid, a));
-            ev(format!("sub m {}", clo.guard.uid));
+            sub(&clo, 'm');
             let sp = spec(*c);
             let ready = *ready;
             if default_pad(&sp) {
@@ -952,14 +974,15 @@ fn do_act(act: &Act_, ctx: &mut Ctx<'_, '_>, fr: &mut Frame) {
                         Some(a) => a,
                         None => return bad(25),
                     };
-                    let clo = make_clo(*c, fr);
+                    let clo = make_call(*c, fr);
                     let uid = clo.guard.uid;
+                    let q = clo.guard.q.clone();
                     ev(format!("target {} {} 0", uid, aid));
                     retto = Some((uid, 0));
                     let inner: Ret<u32> = ret_to!([actor], meth_ret(clo) as (u32));
                     Ret::new(move |m: Option<u32>| {
                         log_ret(r, &m);
-                        ev(format!("sub m {}", uid));
+                        sub_later(&q, uid);
                         match m {
                             Some(v) => inner.ret(v),
                             None => drop(inner),
@@ -971,8 +994,9 @@ fn do_act(act: &Act_, ctx: &mut Ctx<'_, '_>, fr: &mut Frame) {
                         Some(a) => a,
                         None => return bad(25),
                     };
-                    let clo = make_clo(*c, fr);
+                    let clo = make_call(*c, fr);
                     let uid = clo.guard.uid;
+                    let q = clo.guard.q.clone();
                     ev(format!("target {} {} 0", uid, aid));
                     retto = Some((uid, 1));
                     let inner: Ret<u32> = ret_some_to!([actor], meth_some(clo) as (u32));
@@ -980,7 +1004,7 @@ fn do_act(act: &Act_, ctx: &mut Ctx<'_, '_>, fr: &mut Frame) {
                         log_ret(r, &m);
                         match m {
                             Some(v) => {
-                                ev(format!("sub m {}", uid));
+                                sub_later(&q, uid);
                                 inner.ret(v)
                             }
                             None => drop(inner),
@@ -1054,9 +1078,9 @@ fn do_act(act: &Act_, ctx: &mut Ctx<'_, '_>, fr: &mut Frame) {
                 Some(fh) => {
                     let msg = match fh.to {
                         Some((c, aid)) => {
-                            let clo = make_clo_nocaps(c);
+                            let clo = make_call_nocaps(c);
                             ev(format!("target {} {} 0", clo.guard.uid, aid));
-                            ev(format!("sub m {}", clo.guard.uid));
+                            sub(&clo, 'm');
                             Msg {
                                 clo: Some(clo),
                                 v: *v,
@@ -1261,8 +1285,11 @@ fn run_case(ops: &[Top]) {
         ev("epilogue".to_string());
         drop_stakker(stp);
         drop_all();
-        *stp = Some(new_stakker(0));
-        drop_stakker(stp);
+        for _ in 0..2 {
+            *stp = Some(new_stakker(0));
+            drop_stakker(stp);
+            drop_all();
+        }
     }));
     let status = match r {
         Ok(()) => "done".to_string(),
